@@ -68,7 +68,7 @@ def top_node(lit, variants=True):
 
 
 def profile_ast(variants=True, max_nodes=10, lit=None):
-    return st.lists(top_node(lit or literal(), variants), max_size=max_nodes)
+    return st.lists(top_node(lit if lit is not None else literal(), variants), max_size=max_nodes)
 
 
 whitespace = st.lists(
